@@ -1,6 +1,9 @@
 (* C09 -- property theorems only.  Subjects: the flow direction and elastic energy regenerated from J2Plastic.py, the hardening
    energies regenerated from Hardening.py, and the scalar reduction of the radial return (model/M_C09.v) whose root solve is the
-   C17 model (loop regenerated from ScalarRootFind.py).  NaN (= root finder did not converge, C17 finding F7) is `None`. *)
+   C17 model (loop regenerated from ScalarRootFind.py).  NaN (= root finder did not converge, C17 finding F7) is `None`.
+   Tensor level: model/M_C09T.v (additive state update: 'small deformations', 'seth hill') and model/M_C09F.v (multiplicative update,
+   'large deformations': regenerated logarithmic strain and regenerated tail of compute_state_new_finite_deformations; spectral
+   log_sqrt_symm / exp_symm of model/M_C11s.v, whose functional calculus is proved in proofs/L_C11s.v, L_C11t.v, L_C11e.v, L_C11u.v). *)
 From Coq Require Import Reals QArith List.
 From Coquelicot Require Import Coquelicot.
 From OV.base Require Import Num.
